@@ -58,6 +58,19 @@ package ethnode
 //@ requires p != nil
 //@ opaque
 
+// ---- the parity peer-list parser (C15): whatever the node's reply holds, converting it does not panic ----
+//@ func (parityPeerInfo).PeerInfo
+//@ property C15
+//@ safety on
+
+//@ func filterActivePeers
+//@ property C15
+//@ safety on
+
+//@ func parityNodeID
+//@ property C15
+//@ safety on
+
 //@ func (Peers).IDs
 //@ property C15
 //@ safety on
